@@ -26,6 +26,8 @@ func init() {
 
 func runC11(c *Ctx) {
 	c.Rule("C11.O12", "no address of a (go 1.18) loop variable escapes its iteration in the shutdown / hand-over code", 1)
+	c.Rule("C11.O13", "a handed-over TCP connection is matched against its own address and both wildcard listeners of its port before it is given up", 2)
+	defer c11HandOverFindsListener(c)
 	defer loopVarEscapes(c, "C11.O12", []string{"pkg/server", "pkg/network", "pkg/stagemanager"})
 	c.Rule("C11.O11", "frozen lockset: the listener state is only read and written under the listener mutex", 4)
 	defer runLockTables(c, "C11", nil)
